@@ -39,11 +39,12 @@ func (e *Ex) level() int {
 }
 
 type exGen struct {
-	r        *Rng
-	env      *Env
-	rightTer bool // produced a conditional in else-position without parentheses
-	newlines bool
-	instr    bool // insert recording / failing calls at leaves
+	r          *Rng
+	env        *Env
+	rightTer   bool // produced a conditional in else-position without parentheses
+	newlines   bool
+	instr      bool // insert recording / failing calls at leaves
+	noRightTer bool // always parenthesise a conditional in else-position (the left-associativity finding belongs to C09)
 }
 
 // Env: identifiers available to expressions and their Go values.
@@ -450,7 +451,7 @@ func (g *exGen) Print(e *Ex) string {
 		m := g.Print(e.B)
 		var r string
 		if e.C.K == "cond" {
-			if g.r.Chance(50) {
+			if g.noRightTer || g.r.Chance(50) {
 				r = "(" + g.Print(e.C) + ")"
 			} else {
 				r = g.Print(e.C) // right-associative reading: a ? b : (c ? d : e)
